@@ -7,11 +7,11 @@
 EXTENDS Kernels, TraceBase
 CONSTANT PropOnly
 VARIABLE l
-tvars == <<kern, r, k, c, st, l>>
+tvars == <<kern, r, k, c, sd, st, l>>
 Ev == Tr[l]
-Step == l' = l + 1 /\ UNCHANGED <<kern, r, k, c, st>>
+Step == l' = l + 1 /\ UNCHANGED <<kern, r, k, c, sd, st>>
 
-TInit == l = 1 /\ kern = "Sort" /\ r = 0 /\ k = 0 /\ c = 0 /\ st = 1
+TInit == l = 1 /\ kern = "Sort" /\ r = 0 /\ k = 0 /\ c = 0 /\ sd = 0 /\ st = 1
 TReset == l <= Len(Tr) /\ Ev.e = "Reset" /\ Step
 
 Shaped(d, rows, cols) == Len(d) = rows /\ \A i \in 1..rows : Len(d[i]) = cols
